@@ -5,6 +5,7 @@ import (
 	"go/constant"
 	"go/token"
 	"go/types"
+	"sort"
 	"strings"
 
 	"golang.org/x/tools/go/ssa"
@@ -160,19 +161,8 @@ func ruleC08Once(c *Ctx) {
 		}
 	}
 	c.Check(okLF, "C08.FINALSTATE", FnName(lf), p.Pos(lf.Pos()), "FinalState is what FindById reads back from the store", "FinalState is not loaded from the store")
-	// DeleteById: one fireEvents per collected flow, in a full loop
-	del := p.SSAFunc(p.Method("boltz", "BaseStore", "DeleteById"))
-	c.Analysed(FnName(del))
-	var fire ssa.CallInstruction
-	n := 0
-	for _, call := range callsIn(del) {
-		if invokeNamed(call, "fireEvents") {
-			fire = call
-			n++
-		}
-	}
-	okD := n == 1 && innermostLoop(loopsOf(del), fire.Block()) != nil
-	c.Check(okD, "C08.ONCE", FnName(del), p.Pos(del.Pos()), "one fireEvents per collected change flow (single call site inside the loop over changeFlows)", fmt.Sprintf("fireEvents call sites: %d; expected exactly one, inside the loop over the change flows", n))
+	// DeleteById: every change flow it collects is fired exactly once on every successful path
+	ruleC08DeleteFlows(c)
 	// fireEvents: processPreCommit then a single OnCommit registration
 	fe := p.SSAFunc(p.Method("boltz", "EntityChangeState", "fireEvents"))
 	c.Analysed(FnName(fe))
@@ -253,95 +243,109 @@ func ruleC08Adapters(c *Ctx) {
 		c.Analysed(name)
 		fi := ComputeFacts(fn)
 		lst := p.Field("boltz", tn, "eventListener")
-		type site struct {
-			kind, pred, state string
-			async, isGo       bool
-			asyncKnown        bool
-		}
-		var sites []site
-		for _, call := range callsIn(fn) {
-			cc := call.Common()
-			var recvOrFn ssa.Value
-			if cc.IsInvoke() {
-				recvOrFn = cc.Value
-			} else if cc.StaticCallee() == nil {
-				recvOrFn = cc.Value
-			} else {
-				continue
-			}
-			if f, _ := loadedField(recvOrFn); !sameVar(f, lst) {
-				continue
-			}
-			s := site{}
-			_, s.isGo = call.(*ssa.Go)
-			arg := cc.Args[len(cc.Args)-1]
-			for i := 0; i < 4; i++ {
-				switch x := arg.(type) {
-				case *ssa.MakeInterface:
-					arg = x.X
-				case *ssa.ChangeInterface:
-					arg = x.X
-				case *ssa.ChangeType:
-					arg = x.X
-				case *ssa.Convert:
-					arg = x.X
+		// decision table over one iteration of the loop over the adapter's change types:
+		// (state.ChangeType ∈ {created, updated, deleted, other}) × IsCreate × IsUpdate × IsDelete × IsAsync
+		_ = fi
+		loops := loopsOf(fn)
+		ok, why := true, ""
+		rows := 0
+		if len(loops) != 1 {
+			ok, why = false, fmt.Sprintf("expected one loop over the adapter's change types, found %d loops", len(loops))
+		} else {
+			hdrIf, _ := loops[0].Header.Instrs[len(loops[0].Header.Instrs)-1].(*ssa.If)
+			isListenerCall := func(cc *ssa.CallCommon) bool {
+				if cc.IsInvoke() || cc.StaticCallee() == nil {
+					f, _ := loadedField(cc.Value)
+					return sameVar(f, lst)
 				}
+				return false
 			}
-			if f, _ := loadedField(arg); f != nil {
-				s.state = f.Name()
+			kindVals := []int64{}
+			for v := range kinds {
+				kindVals = append(kindVals, v)
 			}
-			for f := range fi.At(call.Block()) {
-				if f.Kind != "true" {
-					continue
-				}
-				switch x := f.V.(type) {
-				case *ssa.BinOp:
-					if x.Op == token.EQL && f.Pol {
-						if k, ok := x.Y.(*ssa.Const); ok && k.Value != nil {
-							v, _ := constant.Int64Val(k.Value)
-							if kn, ok := kinds[v]; ok {
-								if ff, _ := loadedField(x.X); ff != nil && ff.Name() == "ChangeType" {
-									s.kind = kn
+			sort.Slice(kindVals, func(a, b int) bool { return kindVals[a] < kindVals[b] })
+			kindVals = append(kindVals, 9999)
+			for _, kv := range kindVals {
+				for mask := 0; mask < 16 && ok; mask++ {
+					isC, isU, isD, isA := mask&1 != 0, mask&2 != 0, mask&4 != 0, mask&8 != 0
+					rows++
+					hdrSeen := 0
+					oracle := func(v ssa.Value) (AV, bool) {
+						if hdrIf != nil && v == hdrIf.Cond {
+							hdrSeen++
+							return avBool(hdrSeen == 1), true
+						}
+						if f, _ := loadedField(v); f != nil {
+							switch f.Name() {
+							case "ChangeType":
+								return avInt(kv), true
+							case "FinalState", "InitialState":
+								return AV{Kind: "sym", Sym: f.Name()}, true
+							}
+							return AV{Kind: "sym", Sym: "field:" + f.Name()}, true
+						}
+						if call, isCall := v.(*ssa.Call); isCall {
+							if cal, _ := calleeOf(call.Common()); cal != nil {
+								switch cal.Name() {
+								case "IsCreate":
+									return avBool(isC), true
+								case "IsUpdate":
+									return avBool(isU), true
+								case "IsDelete":
+									return avBool(isD), true
+								case "IsAsync":
+									return avBool(isA), true
 								}
 							}
-						}
-					}
-				case *ssa.Call:
-					if cal, _ := calleeOf(x.Common()); cal != nil {
-						switch cal.Name() {
-						case "IsCreate", "IsUpdate", "IsDelete":
-							if f.Pol {
-								s.pred = cal.Name()
+							if isListenerCall(call.Common()) {
+								return AV{Kind: "sym", Sym: "void"}, true
 							}
-						case "IsAsync":
-							s.async, s.asyncKnown = f.Pol, true
 						}
+						if u, isLoad := v.(*ssa.UnOp); isLoad && u.Op == token.MUL {
+							return AV{Kind: "sym", Sym: "load:" + u.X.Name()}, true
+						}
+						if _, isAlloc := v.(*ssa.Alloc); isAlloc {
+							return AV{Kind: "sym", Sym: "zero"}, true
+						}
+						return AV{}, false
+					}
+					evs, err := DecideCalls(fn, oracle, func(ci ssa.CallInstruction) bool { return isListenerCall(ci.Common()) })
+					desc := fmt.Sprintf("ChangeType=%s IsCreate=%v IsUpdate=%v IsDelete=%v IsAsync=%v", kinds[kv], isC, isU, isD, isA)
+					if err != "" {
+						ok, why = false, "one iteration is not decidable for "+desc+": "+err
+						break
+					}
+					type delivery struct {
+						isGo  bool
+						state string
+					}
+					var got []delivery
+					for _, ev := range evs {
+						_, isGo := ev.Call.(*ssa.Go)
+						st := ""
+						if len(ev.Args) > 0 {
+							st = ev.Args[len(ev.Args)-1].Sym
+						}
+						got = append(got, delivery{isGo, st})
+					}
+					kn := kinds[kv]
+					match := (kn == "EntityCreated" && isC) || (kn == "EntityUpdated" && isU) || (kn == "EntityDeleted" && isD)
+					switch {
+					case !match && len(got) != 0:
+						ok, why = false, fmt.Sprintf("%s: the listener is invoked although the event does not match the listener's change type (predicate %s)", desc, wantPred[kn])
+					case match && len(got) != 1:
+						ok, why = false, fmt.Sprintf("%s: %d deliveries, exactly one expected", desc, len(got))
+					case match && got[0].state != wantState[kn]:
+						ok, why = false, fmt.Sprintf("%s delivers %s, expected %s", desc, got[0].state, wantState[kn])
+					case match && got[0].isGo != isA:
+						ok, why = false, fmt.Sprintf("%s: async=%v but delivered with go=%v", desc, isA, got[0].isGo)
 					}
 				}
 			}
-			sites = append(sites, s)
 		}
-		ok := len(sites) == 6
-		why := fmt.Sprintf("expected 6 listener invocations (3 change types × sync/async), found %d", len(sites))
-		seen := map[string]int{}
-		for _, s := range sites {
-			if s.kind == "" || wantPred[s.kind] != s.pred {
-				ok, why = false, fmt.Sprintf("listener invoked under change type %q with predicate %q", s.kind, s.pred)
-			}
-			if wantState[s.kind] != s.state {
-				ok, why = false, fmt.Sprintf("%s delivers %s, expected %s", s.kind, s.state, wantState[s.kind])
-			}
-			if !s.asyncKnown || s.async != s.isGo {
-				ok, why = false, fmt.Sprintf("%s: async=%v but delivered with go=%v", s.kind, s.async, s.isGo)
-			}
-			seen[fmt.Sprintf("%s/%v", s.kind, s.async)]++
-		}
-		for k, n := range seen {
-			if n != 1 {
-				ok, why = false, "duplicate delivery for "+k
-			}
-		}
-		c.Check(ok, "C08.ADAPTERS", name, p.Pos(fn.Pos()), "six deliveries: (created→IsCreate→final), (updated→IsUpdate→final), (deleted→IsDelete→initial), each once synchronously and once via go under IsAsync", why)
+		_ = rows
+		c.Check(ok, "C08.ADAPTERS", name, p.Pos(fn.Pos()), "decision table of one loop iteration (4 change kinds × IsCreate × IsUpdate × IsDelete × IsAsync = 64 rows): delivered exactly once iff the event matches (created→IsCreate→final, updated→IsUpdate→final, deleted→IsDelete→initial), via go iff IsAsync", why)
 		// pre-commit of an adapter never vetoes
 		pre := p.SSAFunc(p.Method("boltz", tn, "ProcessPreCommit"))
 		okPre := true
@@ -928,17 +932,37 @@ func ruleC16Context(c *Ctx) {
 	sysT := p.Named("boltz", "systemMutateContext")
 	fi := ComputeFacts(nc)
 	ok := true
-	for _, r := range returnsOf(nc) {
-		if r.Results[0] == ssa.Value(nc.Params[0]) {
-			if !fi.HoldsWhere(r.Block(), func(f Fact) bool {
-				k, isCall := f.V.(*ssa.Call)
-				return f.Kind == "true" && f.Pol && isCall && invokeNamed(k, "IsSystemContext")
-			}) {
-				ok = false
+	isSysFact := func(fs factSet) bool {
+		for f := range fs {
+			k, isCall := f.V.(*ssa.Call)
+			if f.Kind == "true" && f.Pol && isCall && invokeNamed(k, "IsSystemContext") && k.Call.Value == ssa.Value(nc.Params[0]) {
+				return true
 			}
-			continue
 		}
-		if mi, isMI := r.Results[0].(*ssa.MakeInterface); !isMI || namedOf(mi.X.Type()) != sysT {
+		return false
+	}
+	var retOK func(v ssa.Value, fs factSet, depth int) bool
+	retOK = func(v ssa.Value, fs factSet, depth int) bool {
+		switch x := v.(type) {
+		case *ssa.Parameter:
+			return x == nc.Params[0] && isSysFact(fs)
+		case *ssa.MakeInterface:
+			return namedOf(x.X.Type()) == sysT
+		case *ssa.Phi:
+			if depth > 3 {
+				return false
+			}
+			for i, e := range x.Edges {
+				if !retOK(e, fi.outFacts(x.Block().Preds[i], x.Block()), depth+1) {
+					return false
+				}
+			}
+			return true
+		}
+		return false
+	}
+	for _, r := range returnsOf(nc) {
+		if !retOK(r.Results[0], fi.At(r.Block()), 0) {
 			ok = false
 		}
 	}
@@ -1472,4 +1496,247 @@ func recvTypeOfFn(fn *ssa.Function) types.Type {
 		return fn.Signature.Recv().Type()
 	}
 	return types.Typ[types.Invalid]
+}
+
+// ruleC08DeleteFlows: flow accounting in DeleteById.  Sources are the results of the
+// processDeleteConstraints calls (the store's own flow and one per child store).  A flow is fired
+// either directly (flow.fireEvents()) or by being put into a slice that is ranged over with
+// elem.fireEvents().  Each source must have exactly one such firing mechanism, every fireEvents site
+// must fire a collected flow, a ranging loop may be left early only with an error, and every
+// successful return after the entity bucket was removed passes every mechanism.
+func ruleC08DeleteFlows(c *Ctx) {
+	p := c.P
+	del := p.SSAFunc(p.Method("boltz", "BaseStore", "DeleteById"))
+	name := FnName(del)
+	c.Analysed(name)
+	fi := factsOf(del)
+	loops := loopsOf(del)
+	flowT := p.Named("boltz", "entityChangeFlow")
+	isFlowSlice := func(t types.Type) bool {
+		switch x := t.Underlying().(type) {
+		case *types.Slice:
+			return namedOf(x.Elem()) == flowT
+		case *types.Pointer:
+			if a, ok := x.Elem().Underlying().(*types.Array); ok {
+				return namedOf(a.Elem()) == flowT
+			}
+		}
+		return false
+	}
+	// union-find over slice-like values
+	parent := map[ssa.Value]ssa.Value{}
+	var find func(v ssa.Value) ssa.Value
+	find = func(v ssa.Value) ssa.Value {
+		if parent[v] == nil || parent[v] == v {
+			parent[v] = v
+			return v
+		}
+		r := find(parent[v])
+		parent[v] = r
+		return r
+	}
+	union := func(a, b ssa.Value) {
+		if a == nil || b == nil || !isFlowSlice(a.Type()) || !isFlowSlice(b.Type()) {
+			return
+		}
+		parent[find(a)] = find(b)
+	}
+	for _, b := range del.Blocks {
+		for _, in := range b.Instrs {
+			switch x := in.(type) {
+			case *ssa.Phi:
+				for _, e := range x.Edges {
+					if !isNilConst(e) {
+						union(x, e)
+					}
+				}
+			case *ssa.Slice:
+				union(x, x.X)
+			case *ssa.Call:
+				if bi, ok := x.Call.Value.(*ssa.Builtin); ok && bi.Name() == "append" {
+					for _, a := range x.Call.Args {
+						if !isNilConst(a) {
+							union(x, a)
+						}
+					}
+				}
+			}
+		}
+	}
+	// strip: the flow value behind interface conversions / phis of the same value
+	var srcOf func(v ssa.Value, depth int) []ssa.Value
+	srcOf = func(v ssa.Value, depth int) []ssa.Value {
+		if depth > 5 {
+			return []ssa.Value{v}
+		}
+		switch x := v.(type) {
+		case *ssa.ChangeInterface:
+			return srcOf(x.X, depth+1)
+		case *ssa.MakeInterface:
+			return srcOf(x.X, depth+1)
+		case *ssa.Phi:
+			var out []ssa.Value
+			for _, e := range x.Edges {
+				if !isNilConst(e) {
+					out = append(out, srcOf(e, depth+1)...)
+				}
+			}
+			return out
+		}
+		return []ssa.Value{v}
+	}
+	type source struct {
+		call    ssa.CallInstruction
+		val     ssa.Value
+		direct  []ssa.CallInstruction
+		storedF map[ssa.Value]bool
+	}
+	var sources []*source
+	srcIdx := map[ssa.Value]*source{}
+	for _, call := range callsIn(del) {
+		cal, _ := calleeOf(call.Common())
+		if cal == nil || cal.Name() != "processDeleteConstraints" {
+			continue
+		}
+		cv, ok := call.(*ssa.Call)
+		if !ok {
+			continue
+		}
+		for _, r := range *cv.Referrers() {
+			if ex, ok := r.(*ssa.Extract); ok && ex.Index == 0 {
+				s := &source{call: call, val: ex, storedF: map[ssa.Value]bool{}}
+				sources = append(sources, s)
+				srcIdx[ex] = s
+			}
+		}
+	}
+	bad := func(why string) {
+		c.Bad("C08.ONCE", name, p.Pos(del.Pos()), why)
+	}
+	if len(sources) < 2 {
+		bad(fmt.Sprintf("expected the store's own and the child stores' processDeleteConstraints results as change flows, found %d", len(sources)))
+		return
+	}
+	// stores of sources into slices
+	for _, b := range del.Blocks {
+		for _, in := range b.Instrs {
+			st, ok := in.(*ssa.Store)
+			if !ok {
+				continue
+			}
+			ia, ok := st.Addr.(*ssa.IndexAddr)
+			if !ok || !isFlowSlice(ia.X.Type()) {
+				continue
+			}
+			for _, sv := range srcOf(st.Val, 0) {
+				if s := srcIdx[sv]; s != nil {
+					s.storedF[find(ia.X)] = true
+				}
+			}
+		}
+	}
+	// fire sites
+	type fireLoop struct {
+		site ssa.CallInstruction
+		loop *Loop
+	}
+	famLoops := map[ssa.Value][]fireLoop{}
+	okAll := true
+	for _, call := range callsIn(del) {
+		if !invokeNamed(call, "fireEvents") {
+			continue
+		}
+		recv := call.Common().Value
+		matched := false
+		if ld, ok := recv.(*ssa.UnOp); ok && ld.Op == token.MUL {
+			if ia, ok := ld.X.(*ssa.IndexAddr); ok && isFlowSlice(ia.X.Type()) {
+				l := innermostLoop(loops, call.Block())
+				_, idxPhi := ia.Index.(*ssa.Phi)
+				if l == nil {
+					okAll = false
+					bad("fireEvents on a slice element outside a loop at " + p.Pos(call.Pos()) + ": only one of the collected flows is fired")
+				} else if bo, isBin := ia.Index.(*ssa.BinOp); !idxPhi && !(isBin && bo.Op == token.ADD) {
+					okAll = false
+					bad("fireEvents on a fixed slice element inside a loop at " + p.Pos(call.Pos()))
+				} else {
+					famLoops[find(ia.X)] = append(famLoops[find(ia.X)], fireLoop{call, l})
+				}
+				matched = true
+			}
+		}
+		if !matched {
+			for _, sv := range srcOf(recv, 0) {
+				if s := srcIdx[sv]; s != nil {
+					s.direct = append(s.direct, call)
+					matched = true
+					if l := innermostLoop(loops, call.Block()); l != nil && !l.Blocks[s.call.Block()] {
+						okAll = false
+						bad("a single change flow is fired inside a loop at " + p.Pos(call.Pos()) + " (more than once)")
+					}
+				}
+			}
+		}
+		if !matched {
+			okAll = false
+			bad("fireEvents at " + p.Pos(call.Pos()) + " fires something that is not a change flow collected by this delete")
+		}
+	}
+	ei := 0
+	var delEntity ssa.Instruction
+	for _, call := range callsIn(del) {
+		if cal, _ := calleeOf(call.Common()); cal != nil && cal.Name() == "DeleteEntity" {
+			delEntity = call
+		}
+	}
+	for _, s := range sources {
+		n := len(s.direct)
+		for fam := range s.storedF {
+			n += len(famLoops[fam])
+			if len(famLoops[fam]) == 0 {
+				okAll = false
+				bad("the change flow of " + describeInstr(s.call) + " is collected into a slice that is never ranged over with fireEvents: its events are lost")
+			}
+		}
+		if n != 1 {
+			okAll = false
+			bad(fmt.Sprintf("the change flow of %s has %d firing sites (exactly one expected: no events, or duplicate events, for that store)", describeInstr(s.call), n))
+		}
+		// must-pass on success after the removal
+		if delEntity != nil {
+			for _, d := range s.direct {
+				ri := reachWithoutFrom(del, delEntity, func(in ssa.Instruction) bool { return in == ssa.Instruction(d) })
+				for _, r := range returnsOf(del) {
+					if ri.ReachesSuccess(r, ei) {
+						okAll = false
+						bad("a successful return at " + p.Pos(r.Pos()) + " is reachable after the entity was removed without " + describeInstr(d))
+					}
+				}
+			}
+		}
+	}
+	for _, fls := range famLoops {
+		for _, fl := range fls {
+			for b := range fl.loop.Blocks {
+				for _, s := range b.Succs {
+					if !fl.loop.Blocks[s] && b != fl.loop.Header && !edgeLeadsOnlyToFailure(fi, b, s, ei) {
+						okAll = false
+						bad("the loop that fires the collected flows can be left early at " + p.Pos(lastPos(b)) + " without an error")
+					}
+				}
+			}
+			if delEntity != nil {
+				hdr := fl.loop.Header
+				ri := reachWithoutFrom(del, delEntity, func(in ssa.Instruction) bool { return in.Block() == hdr })
+				for _, r := range returnsOf(del) {
+					if ri.ReachesSuccess(r, ei) {
+						okAll = false
+						bad("a successful return at " + p.Pos(r.Pos()) + " is reachable after the entity was removed without firing the collected flows")
+					}
+				}
+			}
+		}
+	}
+	if okAll {
+		c.OK("C08.ONCE", name, p.Pos(del.Pos()), fmt.Sprintf("%d change-flow sources, each fired by exactly one mechanism (direct call or ranged slice), on every successful path after the removal", len(sources)))
+	}
 }
